@@ -217,8 +217,9 @@ def parseEntryEnd? (s : String) : Option (EntryEnd DVal) :=
   | _ => none
 
 def retainFn (mask : Nat) (bump : Int) : Nat → DKey → DVal → Bool × DVal :=
-  fun _ k v =>
-    let keep := (mask >>> k.cls) % 2 == 1
+  fun n k v =>
+    -- masks >= 65536: a STATEFUL predicate, the answer depends on the call number
+    let keep := if mask ≥ 65536 then (mask >>> (n % 16)) % 2 == 1 else (mask >>> k.cls) % 2 == 1
     (keep, if keep then { v with val := v.val + bump } else v)
 
 def parseMapOp? (args : List String) : Option (MapOp DKey DVal DKey) :=
@@ -293,7 +294,7 @@ def parseSetOp? (args : List String) : Option (SetOp DKey DKey) :=
   | ["take", p] => (parseProbe? p).map .take
   | ["retain", m] => do
     let m ← parseNat? m
-    pure (.retain fun _ k => (m >>> k.cls) % 2 == 1)
+    pure (.retain fun n k => if m ≥ 65536 then (m >>> (n % 16)) % 2 == 1 else (m >>> k.cls) % 2 == 1)
   | ["clear"] => some .clear
   | ["len"] => some .len
   | ["is_empty"] => some .is_empty
